@@ -216,7 +216,7 @@ def exhaustive_single_ops(maxlen, idxs, steps, kind="tl", validator="id", base=1
             yield head + o
 
 
-def random_op(rng, n, wide=False):
+def random_op(rng, n, wide=False, selfarg=False):
     """One random operation on a list of current length about n."""
     r = rng.random()
     span = n + 3
@@ -231,7 +231,7 @@ def random_op(rng, n, wide=False):
         return rng.choice([0, 1, 2, 3, 5, 8, 9, 13, -1, -4]) if rng.random() < 0.8 else rng.randint(-20, 20)
 
     def items(k=None):
-        if rng.random() < 0.06:
+        if selfarg and rng.random() < 0.06:
             return "@"
         k = rng.randint(0, 4) if k is None else k
         return rng.choice(["", "", "", "g", "t", "i"]) + show_list([item() for _ in range(k)])
@@ -268,7 +268,7 @@ def random_op(rng, n, wide=False):
                        "sk %d 1" % rng.randint(1, 2), "sk %d %d" % (rng.randint(1, 2), rng.randint(0, 1))])
 
 
-def random_history(rng, kind="tl", maxops=12, validators=None):
+def random_history(rng, kind="tl", maxops=12, validators=None, selfarg=True):
     validators = validators or ["id", "id", "mod7", "rejneg", "rejneg",
                                 "failk:%d:%s" % (rng.randint(0, 3), rng.choice(
                                     ["TraitError", "ValueError", "AttributeError", "RuntimeError"]))]
@@ -284,7 +284,7 @@ def random_history(rng, kind="tl", maxops=12, validators=None):
     cur = len(init)
     big = 0
     for _ in range(rng.randint(1, maxops)):
-        o = random_op(rng, min(cur, 12))
+        o = random_op(rng, min(cur, 12), selfarg=selfarg)
         if o in ("im 2", "im 3"):
             big += 1
             if big > 2:
